@@ -34,10 +34,12 @@ STEP_BUDGET = 4_000_000
 # inside simulated processes
 
 
-def _make_grammar(gd):
+def _make_grammar(gd, flags=None):
     from parglare import Grammar
 
-    return Grammar.from_string(gd["text"], recognizers=peers.wrap_recognizers(gd.get("recs")))
+    kw = {k: True for k in (flags or [])}  # debug / debug_parse / debug_colors
+    return Grammar.from_string(gd["text"], recognizers=peers.wrap_recognizers(gd.get("recs")),
+                               **kw)
 
 
 def _make_parser(g, b, spec, actions=None, shared_table=None):
@@ -48,9 +50,17 @@ def _make_parser(g, b, spec, actions=None, shared_table=None):
     if b.get("bad_actions"):
         # a construction that must fail: another (differently tagged) action table
         # whose entry for one nonterminal is a list of the wrong length
-        bad = peers.recording_actions(spec["act_nts"], spec["act_terms"], tag="bad")
+        # it names EVERY symbol (the real table may name fewer), and fails either at a
+        # nonterminal (wrong-length list) or at a terminal (a list is not allowed
+        # there; terminals are resolved after all nonterminals, so nearly the whole
+        # foreign table is on the symbols when it fails)
+        ba = b["bad_actions"]
+        bad = peers.recording_actions(ba["all_nts"], ba["all_terms"], tag="bad")
         f0 = next(iter(bad.values()))
-        bad[b["bad_actions"]["nt"]] = [f0] * b["bad_actions"]["n"]
+        if ba.get("term") is not None:
+            bad[ba["term"]] = [f0]
+        else:
+            bad[ba["nt"]] = [f0] * ba["n"]
         kw["actions"] = bad
     elif spec.get("actions"):
         kw["actions"] = actions if actions is not None else peers.recording_actions(
@@ -89,10 +99,14 @@ def _do_parse(p, rec, op, armed=None, keep=None):
     peers.SEAM.reset(armed)
     if isinstance(rec, peers.RecoveryPeer):
         rec.begin(op.get("peer_seed", 0))
+    # a temporary string object per parse, freed afterwards like a record read from a
+    # stream: the next input may then live at the same address
+    text = "".join(list(op["input"]))
     out = parse_outcome(
-        p, op["input"], with_errors=bool(rec), call_actions=op.get("mode") == "call_actions",
+        p, text, with_errors=bool(rec), call_actions=op.get("mode") == "call_actions",
         keep=keep,
     )
+    del text
     out["seams"] = dict(peers.SEAM.counts)
     out["fired"] = peers.SEAM.fired
     peers.SEAM.reset(None)
@@ -178,7 +192,8 @@ def child_history(spec, ops):
                 k = op["op"]
                 if k == "grammar":
                     try:
-                        grammars[op["g"]] = _make_grammar(spec["grammars"][op["text"]])
+                        grammars[op["g"]] = _make_grammar(spec["grammars"][op["text"]],
+                                                          op.get("flags"))
                         outs.append({"grammar": "ok"})
                     except Exception as e:
                         outs.append({"grammar": exc_outcome(e)})
@@ -417,6 +432,8 @@ def gen_run(rng, tier):
     act_nts = list(sc["nts"])
     if sc.get("named") and rng.random() < 0.6:
         act_nts = [n for n in act_nts if n in ("Expr",)]
+    if rng.random() < 0.5:
+        act_nts = [n for n in act_nts if rng.random() < 0.7] or act_nts[:1]
     act_terms = [t for t in sc["terms"] if rng.random() < 0.7]
     spec = {"family": sc["family"], "grammars": grammars, "actions": use_actions,
             "act_nts": act_nts, "act_terms": act_terms}
@@ -471,8 +488,13 @@ def gen_run(rng, tier):
             # action resolution (wrong-length action list for one nonterminal)
             g = rng.choice(sorted(have_g))
             b = gen_build(rng, sc)
-            gnts = sc["models"][vers[g]].nts()
-            b["bad_actions"] = {"nt": rng.choice(gnts), "n": rng.choice([0, 9])}
+            gm = sc["models"][vers[g]]
+            gnts = gm.nts()
+            gterms = sorted(gm.terms)
+            b["bad_actions"] = {"nt": rng.choice(gnts), "n": rng.choice([0, 9]),
+                                "all_nts": gnts, "all_terms": gterms}
+            if rng.random() < 0.6:
+                b["bad_actions"]["term"] = rng.choice(gterms)
             slot = rng.randrange(nslots)
             ops.append({"op": "build", "p": slot, "g": g, "b": b})
             parsers.pop(slot, None)
@@ -489,7 +511,12 @@ def gen_run(rng, tier):
             have_g.add(1)
         elif r < 0.30:
             g = rng.choice(sorted(have_g))
-            ops.append({"op": "grammar", "g": g, "text": g})
+            op = {"op": "grammar", "g": g, "text": g}
+            if rng.random() < 0.4:
+                # debugging flags of Grammar.from_string: they go to the module-level
+                # grammar-of-grammars parser and to termui
+                op["flags"] = [rng.choice(["debug_parse", "debug", "debug_colors"])]
+            ops.append(op)
         elif r < 0.34:
             bad = sc["texts"][rng.randrange(nver)]
             cut = rng.randrange(1, max(2, len(bad)))
